@@ -195,7 +195,9 @@ def operand_scales(core: Any) -> Dict[str, List[Tuple[Any, Any, Tuple[str, ...]]
         if isinstance(t, T):
             if t.op == "scale":
                 inner, sf, sb = t.args
-                rec(inner, _mul(f, sf), _mul(b, sb), ops, in_scale_arg)
+                # fwd factor 1 => a backward-only application (its bwd factor may itself be 1)
+                kind = "scale:" + ("b" if _is_one(sf) else ("f" if _is_one(sb) else "fb"))
+                rec(inner, _mul(f, sf), _mul(b, sb), ops + (kind,), in_scale_arg)
                 return
             if t.op == "param":
                 out.setdefault(t.args[0], []).append((f, b, ops))
